@@ -309,6 +309,22 @@ class Laws(object):
         if rebuilt[0] == 'exc':
             return
         r = rebuilt[1]
+        # values derived from a delta are objects of their own: editing one (through the only public setter) leaves the
+        # source as it was - also when the operation had nothing to change (normalized() of an integer delta, abs() of a
+        # positive one, * 1, + an empty delta)
+        src = R(**kw)
+        before = (fields_of(src), hash(src), repr(src))
+        for name, derive in (('normalized', lambda x: x.normalized()), ('abs', abs), ('mul-1', lambda x: x * 1), ('add-empty', lambda x: x + R()),
+                             ('neg-neg', lambda x: -(-x)), ('div-1', lambda x: x / 1)):
+            dv = try_(lambda: derive(src))
+            if dv[0] != 'ok':
+                continue
+            dv[1].weeks = dv[1].weeks + rng.choice([1, -2, 5])
+            after = (fields_of(src), hash(src), repr(src))
+            self.law('derived-value-independent', after == before and src == R(**kw), dict(case, derived_by=name),
+                     'after editing the result of %s: source %s, was %s' % (name, after[2], before[2]), 'derived-' + name)
+            if after != before:
+                break
         self.law('weeks-setter-consistent', (d == r) and hash(d) == hash(r) and len({d, r}) == 1, case,
                  'after d.weeks = %d: d = %r (hash %r), rebuilt from its fields %r (hash %r), hash before %r' % (w, d, hash(d), r, hash(r), h0), 'weeks')
 
